@@ -1,56 +1,68 @@
 (* C15 -- cancellation is all-or-nothing at every point; progress is monotone and ends at 1.
    Only statements closed by `exact`, each followed by Print Assumptions.
-   The generated-table obligations (sites_ok / phase_counts_match / reset_order_ok on
-   Gen/CancelSites.v) are separate files Gen/CancelSitesOk*.v, compiled by the check. *)
+   The instances on the regenerated tables (Gen/CancelProg.v: table_ok; Gen/CancelSites.v: phase counts,
+   reset order, top-up) are the generated files Gen/CancelProgOk{Seq,Par}.v, Gen/CancelPhasesOk.v,
+   Gen/CancelResetOk.v, compiled by the check. *)
 From Coq Require Import List String ZArith Bool Arith.
-From MV Require Import Proto.CancelDefs Proto.CancelModel.
+From MV Require Import Proto.CancelDefs Proto.CancelModel Proto.CancelPathDefs Proto.CancelPathModel.
 Import ListNotations.
 
-(* Level A.  A raw-array operation is the bracketed path word w of its uncancelled
-   execution (TLoop c: ctx-aware loop with c chunk checks; TEnter/TLeave: body of an open
-   ctx-aware callee; TAbortP: `if (IsCancelled) return;`; TAbortF: a check that produces a
-   Cancelled object; TUse: a statement reading earlier outputs).  word_ok is the word-level
-   reading of sites_ok: after every ctx-aware loop / callee an aborting check comes before
-   any use and before the end.  Then for EVERY cancel point k (cancel_at k: the k-th check is
-   the first to read true), serial or parallel, and every order `sched` in which parallel
-   chunks reach their check (= every chunk-skipping choice), the result is the complete
-   result r0 of the uncancelled run (every chunk of every loop ran) or Cancelled-and-empty. *)
+(* The translator emits, per function, a structured program (`stmt`: ctx-aware loops, calls of ctx-aware callees
+   with their bodies in line and marked open/closed, cancel checks that return plainly (SAbortP) or produce a
+   Cancelled object (SAbortF), status checks, uses, branches, loops, return/break/continue), raw-array AND
+   object-level functions (SimpleBoolean, BatchBoolean, BatchUnion, ToLeafNode, GetCsgLeafNode, Minkowski) alike.
+   `paths t f` are the bracketed words of the uncancelled executions the table denotes for API function f;
+   `table_ok` is the boolean abstract interpreter Coq evaluates on the table.
+
+   1. Every path of an accepted table obeys the word discipline `wok`: after a ctx-aware loop or an open callee an
+   aborting check precedes every use, the end, and every closed callee; after any callee a possibly Cancelled
+   object is only forwarded until a cancel check or a status check; a plain `return` on cancel never occurs at
+   API level or directly inside a closed callee. *)
+Theorem paths_are_disciplined :
+  forall (t : table), table_ok t = true -> forall (f : string) (w : list tok2), paths t f w -> wok w = true.
+Proof. exact table_ok_paths_wok. Qed.
+Print Assumptions paths_are_disciplined.
+
+(* 2. All-or-nothing at EVERY cancel point: for every accepted table, API function f, path w of f, serial or
+   parallel execution, every order `sched` in which parallel chunks reach their check (= every chunk-skipping
+   choice) and every k (the k-th IsCancelled is the first to read true): the result is the complete result r0 of the
+   uncancelled run (every chunk of every loop ran) or Cancelled-and-empty.  The semantics `exec2` derives each
+   cancelled run from the uncancelled path: a loop that reads the flag skips chunks, a plain-return check leaves
+   the innermost callee with partial state, a Cancelled-producing check leaves it with a Cancelled object in
+   flight; consuming partial state or a Cancelled object otherwise than by forwarding is `Undefined`, ending with
+   partial state is `PartialEscaped`. *)
 Theorem partial_never_escapes :
-  forall (w : list tok) (par : bool) (sched : nat -> nat -> nat) (k : nat),
-    word_ok w false 0 = true ->
-    exists r0, exec never par sched w = Complete r0 /\ Forall (Forall (eq true)) r0 /\
-      (exec (cancel_at k) par sched w = Complete r0 \/ exec (cancel_at k) par sched w = CancelledEmpty).
-Proof. exact partial_never_escapes_k. Qed.
+  forall (t : table), table_ok t = true ->
+  forall (f : string) (w : list tok2), paths t f w ->
+  forall (par : bool) (sched : nat -> nat -> nat) (k : nat),
+    exists r0, exec2 never par sched w = Complete r0 /\ Forall (Forall (eq true)) r0 /\
+      (exec2 (cancel_at k) par sched w = Complete r0 \/ exec2 (cancel_at k) par sched w = CancelledEmpty).
+Proof. exact table_all_or_nothing. Qed.
 Print Assumptions partial_never_escapes.
 
-(* The same for any sticky flag (a racing Cancel() from another thread). *)
+(* The same for any sticky flag (a racing Cancel() from another thread), at word level. *)
 Theorem partial_never_escapes_sticky_flag :
-  forall (w : list tok) (flag : nat -> bool) (par : bool) (sched : nat -> nat -> nat),
-    word_ok w false 0 = true -> (forall i, flag i = true -> flag (S i) = true) ->
-    exec flag par sched w = exec never par sched w \/ exec flag par sched w = CancelledEmpty.
-Proof. exact partial_never_escapes_flag. Qed.
+  forall (w : list tok2) (flag : nat -> bool) (par : bool) (sched : nat -> nat -> nat),
+    wok w = true -> (forall i, flag i = true -> flag (S i) = true) ->
+    exec2 flag par sched w = exec2 never par sched w \/ exec2 flag par sched w = CancelledEmpty.
+Proof. exact wok_all_or_nothing_flag. Qed.
 Print Assumptions partial_never_escapes_sticky_flag.
 
-Example partial_never_escapes_hyp_sat :   (* SortVerts-like callee inside a Hull-like operation *)
-  word_ok [TAbortF; TEnter; TLoop 5; TAbortP; TNeutral; TEnter; TLoop 30; TAbortP; TLeave; TAbortP; TUse; TLeave; TAbortF; TUse] false 0 = true.
-Proof. vm_compute. reflexivity. Qed.
+Example table_ok_hyp_sat :      (* a Hull-like body is accepted, the pre-fix Refine body is not *)
+  prog_ok ex_hull = true /\ prog_ok ex_refine_prefix = false /\
+  prog_ok [SCall true ex_hull; SStat; SUse] = true /\ prog_ok [SCall true ex_hull; SUse] = false.
+Proof. exact examples_ok. Qed.
 
-(* The discipline is what the result rests on: without the post-loop check a partial result
-   escapes (Impl::Refine on the pinned tree), with a use before the check it is consumed. *)
+(* The discipline is what the result rests on: an open callee (loop + plain return) not followed by a check is
+   rejected, and it has a path on which a partial result escapes, resp. is consumed, at cancel point 2. *)
 Theorem missing_check_lets_partial_escape :
-  exec (cancel_at 2) false (fun _ j => j) [TLoop 3; TNeutral] = PartialEscaped /\
-  exec (cancel_at 2) false (fun _ j => j) [TLoop 3; TUse; TAbortF] = Undefined /\
-  word_ok [TLoop 3; TNeutral] false 0 = false /\ word_ok [TLoop 3; TUse; TAbortF] false 0 = false.
-Proof. exact missing_check_escapes. Qed.
+  is_path [SCall false [SLoop; SAbortP]] [UEnter false; ULoop 3; UAbortP; ULeave] /\
+  exec2 (cancel_at 2) false (fun _ j => j) [UEnter false; ULoop 3; UAbortP; ULeave] = PartialEscaped /\
+  exec2 (cancel_at 2) false (fun _ j => j) [UEnter false; ULoop 3; UAbortP; ULeave; UUse; UAbortF] = Undefined /\
+  prog_ok [SCall false [SLoop; SAbortP]] = false /\ prog_ok [SCall false [SLoop; SAbortP]; SUse; SAbortF] = false /\
+  prog_ok [SCall false [SLoop; SAbortP]; SAbortF; SUse] = true.
+Proof. exact missing_check_escapes2. Qed.
 Print Assumptions missing_check_lets_partial_escape.
-
-(* What sites_ok says about a generated table. *)
-Theorem sites_ok_means :
-  forall t : list site, sites_ok t = true ->
-    forall s, In s t -> (forall f, In f (s_followers s) -> f <> FUse) /\
-                         (forall k, In k (s_terms s) -> k <> TEndTop) /\ s_terms s <> [].
-Proof. exact sites_ok_spec. Qed.
-Print Assumptions sites_ok_means.
 
 (* Automaton run on the logged site word of a real run (kind, value read). *)
 Theorem automaton_unobserved_is_complete :
@@ -62,18 +74,19 @@ Theorem automaton_final_is_sticky :
 Proof. exact accept_final_sticky. Qed.
 Print Assumptions automaton_final_is_sticky.
 
-(* Level B.  One evaluation of a CSG expression e: counters are reset numerators first
-   (order_pinned = the order read from GetCsgLeafNode), total = K * (NumLeaves - 1), then K unit
-   credits per leaf reduction (phase() x K on the full path, PhaseBalance's top-up otherwise;
-   K = #phase() sites is the generated obligation phase_counts_match).  A cancelled run is a
-   prefix of this event list, and pstates lists the state after every prefix: so at every point
-   of every (cancelled or not) evaluation, for trees AND DAGs, done <= total, from any earlier
-   state of a reused context; and done never decreases after the reset. *)
+(* Progress.  One evaluation of a CSG expression e (tree or DAG) in the current code: counters are reset numerators
+   first (order_pinned = the order read from GetCsgLeafNode), total = K * (NumLeaves - 1), K unit credits per leaf
+   reduction (phase() x K on the full path, PhaseBalance's top-up otherwise; K = #phase() sites is the generated
+   obligation phase_counts_match), and after an uncancelled ToLeafNode GetCsgLeafNode tops done up to total
+   (commit 0b749b9c; its presence is the generated obligation completion_topup = true).  A cancelled run is a prefix
+   of this event list and pstates lists the state after every prefix: at every point of every evaluation
+   done <= total, from any earlier state of a reused context, and done never decreases after the reset. *)
 Theorem progress_bounds :
   forall (K : nat) (col : nat -> bool) (e : expr) (d0 t0 : nat), wf e = true -> d0 <= t0 ->
-    Forall (fun s => fst s <= snd s) (pstates (d0, t0) (eval_events K order_pinned col e)) /\
-    mono_done (pstates (0, K * total_booleans e) (repeat (PCredit 1) (K * reductions col e))).
-Proof. exact progress_bounds_lemma. Qed.
+    Forall (fun s => fst s <= snd s) (pstates (d0, t0) (eval_events_topup K col e)) /\
+    mono_done (pstates (0, K * total_booleans e)
+                 (repeat (PCredit 1) (K * reductions col e) ++ [PCredit (K * total_booleans e - K * reductions col e)])).
+Proof. exact progress_bounds_topup_lemma. Qed.
 Print Assumptions progress_bounds.
 
 (* ... and the order matters: denominators first exposes done > total on a reused context. *)
@@ -83,41 +96,32 @@ Theorem reset_order_matters :
 Proof. exact reset_total_first_refuted. Qed.
 Print Assumptions reset_order_matters.
 
-(* Progress() = 1 after an uncancelled completion: TREES (no children vector shared, none reduced
-   before), any collapse decisions below the root. *)
+(* Progress() = 1 after every uncancelled completion, trees and DAGs, any collapse decisions. *)
 Theorem progress_complete :
+  forall (K : nat) (col : nat -> bool) (e : expr) (d0 t0 : nat), wf e = true ->
+    fold_left pstep (eval_events_topup K col e) (d0, t0) = (K * total_booleans e, K * total_booleans e).
+Proof. exact progress_complete_topup_lemma. Qed.
+Print Assumptions progress_complete.
+
+Example progress_complete_hyp_sat : wf f1_expr = true /\ wf (Op 2 [Op 0 [Leaf; Leaf]; Op 1 [Leaf; Leaf; Leaf]]) = true.
+Proof. exact (conj eq_refl eq_refl). Qed.
+
+(* History (code before 0b749b9c, no top-up): trees already reached done = total ... *)
+Example progress_complete_before_fix_trees :
   forall (K : nat) (col : nat -> bool) (i : nat) (ks : list expr) (d0 t0 : nat),
     wf (Op i ks) = true -> NoDup (iids (Op i ks)) -> col i = false ->
     fold_left pstep (eval_events K order_pinned col (Op i ks)) (d0, t0) =
     (K * total_booleans (Op i ks), K * total_booleans (Op i ks)).
 Proof. exact progress_complete_tree. Qed.
-Print Assumptions progress_complete.
-
-Example progress_complete_hyp_sat :
-  wf (Op 2 [Op 0 [Leaf; Leaf]; Op 1 [Leaf; Leaf; Leaf]]) = true /\ NoDup (iids (Op 2 [Op 0 [Leaf; Leaf]; Op 1 [Leaf; Leaf; Leaf]])).
-Proof. split; [reflexivity | repeat constructor; cbn; intuition discriminate]. Qed.
-
-(* DAGs: refuted (finding F1).  x = a + b, r = x ^ x.Translate(t): NumLeaves counts the shared,
-   not yet evaluated children vector once per parent (4 leaves, 3 Booleans) but it is reduced
-   once (2 Booleans): the evaluation ends with done = 22, total = 33. Replayed on the real code. *)
-Theorem progress_complete_dag_refuted :
+(* ... DAGs did not (finding F1): x = a + b, r = x ^ x.Translate(t) ended with done = 22, total = 33, because
+   NumLeaves counts the shared, not yet evaluated children vector once per parent and it is reduced once. *)
+Example progress_complete_before_fix_dag_refuted :
   exists (e : expr) (col : nat -> bool), wf e = true /\
     fold_left pstep (eval_events 11 order_pinned col e) (0, 0) = (22, 33).
 Proof. exact progress_dag_refuted. Qed.
-Print Assumptions progress_complete_dag_refuted.
 
-(* The repair proposed for F1 (hooks/fix_C15_1.patch): GetCsgLeafNode tops donePhases up to totalPhases
-   after an uncancelled ToLeafNode.  With it Progress() = 1 after every uncancelled completion, trees and
-   DAGs; the top-up is a non-negative credit (reductions <= NumLeaves - 1, used in progress_bounds), so
-   monotonicity and the bound are kept.  The check uses this variant when the translator finds the top-up. *)
-Theorem progress_complete_with_topup :
-  forall (K : nat) (col : nat -> bool) (e : expr) (d0 t0 : nat), wf e = true ->
-    fold_left pstep (eval_events_topup K col e) (d0, t0) = (K * total_booleans e, K * total_booleans e).
-Proof. exact progress_complete_topup_lemma. Qed.
-Print Assumptions progress_complete_with_topup.
-
-(* Op-node cache poisoning: every node on the evaluation stack whose cache was unset answers
-   Cancelled from then on, without looking at any context; finished nodes keep their result. *)
+(* Op-node cache poisoning: every node on the evaluation stack whose cache was unset answers Cancelled from then on,
+   without looking at any context; finished nodes keep their result. *)
 Theorem cancelled_is_sticky :
   forall (stack : list nat) (cache : nat -> option cst) (i : nat),
     (In i stack -> cache i = None -> to_leaf_cached (poison stack cache) i = Some CCancelled) /\
